@@ -329,7 +329,7 @@ class Engine:
         return cfg
 
     def new_world(self, cfg, prop):
-        if self.hyperbolic.CHECK_LIGHT_CONE is not False:
+        if getattr(self.hyperbolic, "CHECK_LIGHT_CONE", False) is not False:
             self.hyperbolic.CHECK_LIGHT_CONE = False
         self.guard.restore()
         return World(cfg, prop)
